@@ -103,3 +103,60 @@ def gen_scenarios(prop, n, seed):
             raise vlib.Infra("scenario generation for %s produced nothing:\n%s" % (fam, r["out"][-1500:]))
         shutil.rmtree(d, ignore_errors=True)
     return res
+
+
+# ---------------------------------------------------------------------------------------
+# code -> model: is a recorded trace a behaviour of Engine.tla?  (spec/EngineConf.tla)
+
+def _conf_one(args):
+    key, trace, keep = args
+    d = vlib.scratch("conf")
+    vlib.copy_specs(d, ["Props.tla", "Engine.tla", "EngineConf.tla", "EngineConf.cfg"])
+    with open(os.path.join(d, "trace.ndjson"), "w") as f:
+        for e in trace:
+            f.write(json.dumps({x: y for x, y in e.items() if x != "_c"}, separators=(",", ":")) + "\n")
+    r = vlib.run_tlc(d, "EngineConf.tla", "EngineConf.cfg", workers=1, timeout=180, deque=True, xmx="1g", light=True)
+    cj = None
+    p = os.path.join(d, "conf.json")
+    if os.path.exists(p):
+        cj = json.load(open(p))
+    res = {"key": list(key), "lines": len(trace), "reached": cj["reached"] if cj else -1, "accepted": bool(cj) and r["rc"] == 0 and cj["reached"] == len(trace),
+           "states": r.get("distinct", 0), "wall": round(r["wall"], 1), "rc": r["rc"]}
+    if not res["accepted"] and cj:
+        i = cj["reached"]
+        res["next_line"] = {k: v for k, v in trace[i].items() if k not in ("snap", "objs", "blocks", "_c", "mshape")} if i < len(trace) else {}
+    if not res["accepted"] and not cj:
+        res["tail"] = r["out"][-600:]
+    if not keep:
+        shutil.rmtree(d, ignore_errors=True)
+    return res
+
+
+def conformable(trace):
+    cfg = trace[0]
+    if cfg.get("mode") in ("api", "resume", "crash") or "mshape" not in cfg:
+        return False
+    for e in trace:
+        if e["ev"] in ("Crash", "Hang", "ProcDied", "HoldTimeout") or (e["ev"] == "PStart" and e.get("ov")) or (e["ev"] == "PEnd" and e.get("out") == "overrun"):
+            return False
+    return True
+
+
+def conformance(traces, n, seed, keep=False):
+    """Check n of the recorded live traces against Engine.tla (in parallel processes)."""
+    import random, concurrent.futures
+    cand = [(k, t) for k, t in traces.items() if conformable(t)]
+    random.Random(seed).shuffle(cand)
+    cand = cand[:n]
+    if not cand:
+        return {"checked": 0, "accepted": 0, "rejected": []}
+    with concurrent.futures.ThreadPoolExecutor(max_workers=min(12, vlib.NCPU)) as ex:
+        rs = list(ex.map(_conf_one, [(k, t, keep) for k, t in cand]))
+    # a rejection is re-checked once on its own (TLC start-up under load has been seen to fail sporadically)
+    for i, r in enumerate(rs):
+        if not r["accepted"]:
+            rs[i] = _conf_one((cand[i][0], cand[i][1], keep))
+            rs[i]["rechecked"] = True
+    rej = [r for r in rs if not r["accepted"]]
+    return {"checked": len(rs), "accepted": len(rs) - len(rej), "rejected": rej[:5], "states": sum(r["states"] for r in rs),
+            "lines": sum(r["lines"] for r in rs), "max_wall": max(r["wall"] for r in rs)}
